@@ -211,3 +211,41 @@ func ZZ_C13_Unknown()  { zzC13Unknown() }
 func ZZ_C13_Queue()    { zzC13Queue() }
 func ZZ_C13_Ended()    { zzC13Ended() }
 func ZZ_C13_Capacity() { zzC13Capacity() }
+
+// SEID re-use with more than one SEID free: three sessions, two of them deleted (in either order),
+// two new sessions established. The new sessions must be different sessions under different SEIDs,
+// and a packet buffered for one of them is held and released by that one alone.
+func zzC13ReuseTwo() {
+	dp := &zzDP{}
+	s := zzNewServer(dp)
+	dp.ln = &s.lnode
+	n := s.NewNode(zzNodeA, zzAddrA, dp)
+	s.rnodes[zzNodeA] = n
+	a, b, c := n.NewSess(0x90), n.NewSess(0x91), n.NewSess(0x92)
+	first, second := a, b
+	if nondetBool("delete-b-first") {
+		first, second = b, a
+	}
+	zzDeliver(s, zzDelReq(first.LocalID, 5), zzAddrA, 5)
+	zzDeliver(s, zzDelReq(second.LocalID, 6), zzAddrA, 6)
+	d, e := n.NewSess(0x93), n.NewSess(0x94)
+	zzAssert("C13.reuse-two.distinct-seids", d.LocalID != e.LocalID && d.LocalID != c.LocalID && e.LocalID != c.LocalID)
+	gd, err1 := s.lnode.Sess(d.LocalID)
+	ge, err2 := s.lnode.Sess(e.LocalID)
+	zzAssert("C13.reuse-two.each-resolves-to-itself", err1 == nil && err2 == nil && gd == d && ge == e)
+	pdr := nondetU16("pdr")
+	target := d
+	other := e
+	if nondetBool("buffer-for-the-second") {
+		target, other = e, d
+	}
+	s.ServeReport(&report.SessReport{SEID: target.LocalID, Reports: []report.Report{report.DLDReport{PDRID: pdr, Action: report.APPLY_ACT_BUFF, BufPkt: []byte{4, 5, 6}}}})
+	zzAssert("C13.reuse-two.held-by-its-session", target.Len(pdr) == 1 && other.Len(pdr) == 0 && c.Len(pdr) == 0)
+	_, ok := s.PopBufPkt(other.LocalID, pdr)
+	zzAssert("C13.reuse-two.not-released-under-the-other-session", !ok)
+	pkt, ok := s.PopBufPkt(target.LocalID, pdr)
+	zzAssert("C13.reuse-two.released-under-its-own", ok && len(pkt) == 3 && pkt[0] == 4)
+	zzCover("C13.reuse-two.done")
+}
+
+func ZZ_C13_ReuseTwo() { zzC13ReuseTwo() }
